@@ -298,7 +298,8 @@ def iobuffers_fns(external=False):
             proof { lemma_cells_take_next(bs, pos_i as int); }'''),
                     ('if let Some(at) = pos {', 'after', 'proof { lemma_cells_take_next(bs, at as int); }'),
                     # all hints for the `if rem > 0 { .. }` block sit after it (anchors independent of the block's text)
-                    ('Ok(IoBuffers {', 'before', '''proof {
+                    # single-line anchor: the field initialiser `buffers: other,` becomes the block `{ proof {..} other }` (same value)
+                    ('buffers: other,', 'replace', '''buffers: ({ proof {
                 if self.buffers@.len() == at { assert(self.buffers@ =~= bs.take(at as int)); assert(other@ =~= bs.skip(at as int)); }
                 if self.buffers@.len() == at + 1 && other@.len() >= 1 {
                     let a = self.buffers@[at as int]; let b = other@[0];
@@ -310,7 +311,7 @@ def iobuffers_fns(external=False):
                         assert(range(bs[at as int].addr(), bs[at as int].slen()) =~= range(a.addr(), a.slen()) + range(b.addr(), b.slen()));
                     }
                 }
-            }''', 'Ok(IoBuffers {\n                buffers: other,')]),
+            } other }),''')]),
     ]
     if not external:
         fns.insert(0, Fn(T, SC, 'bytes_consumed', ensures=['r == self.bytes_consumed'], props=['C04']))
